@@ -33,7 +33,7 @@ A200 == [A0 EXCEPT !.ma = 60, !.etag = 2]
 AErr == [A0 EXCEPT !.k = "err"]
 A503 == [A0 EXCEPT !.st = 503, !.ccp = 0, !.ma = None]
 Answers == IF ex.purpose = "reval" /\ ex.stored.rep.etag > 0 THEN {A304, A200, AErr, A503} ELSE {A200, AErr, A503}
-BgAnswers == {A304, A200, AErr}
+BgAnswers == {A304, A200, AErr, A503}
 
 \* fault sets: none, every single operation, every pair (operations are numbered per exchange)
 MaxOps == 5
